@@ -230,8 +230,10 @@ def run(prog: Program, rep, tier: str) -> None:
             par = pm.get(id(u_))
             # allowed sinks: the rcond slot of a result, logger arguments, and being the test of an observer condition itself
             okuse = False
-            if isinstance(us.stmt, ast.If) and any(m is u_ for m in ast.walk(us.stmt.test)) and observer_fact((atoms_of(ff.resolved(us.stmt, us.stmt.test), True) or [("", "", None)])[0]):
-                okuse = True
+            if isinstance(us.stmt, ast.If) and any(m is u_ for m in ast.walk(us.stmt.test)):
+                rt = ff.resolved(us.stmt, us.stmt.test)
+                if observer_fact((atoms_of(rt, True) or [("", "", None)])[0]) or observer_fact((atoms_of(rt, False) or [("", "", None)])[0]):
+                    okuse = True   # the test of an observer condition itself (`if path is not None:` / `if path is None: return ..`)
             while par is not None and not isinstance(par, ast.stmt):
                 if isinstance(par, ast.Call):
                     d = dotted(par.func) or ""
